@@ -11,7 +11,7 @@ enum { T_LIT, T_CONST, T_MUT, NTERM };
 static const char* TERM[] = {"2", "K", "v"};
 enum { L_CONST, L_FUN, L_ARITH, L_CONSTARR, L_CONSTIF, NLINK };
 // how a function body depends on its operand X (all return a small positive value)
-static const int NREAD = 8;
+static const int NREAD = 11;
 static std::string fbody(int r, const std::string& X)
 {
     switch (r) {
@@ -23,6 +23,9 @@ static std::string fbody(int r, const std::string& X)
     case 5: return "int l = 1; l += " + X + "; return l;";
     case 6: return "int l = 1; while (l < " + X + ") l++; return l;";
     case 7: return "int l = 0; for (k : int[0,1]) l = l + (" + X + " > k ? 1 : 0); return l + 1;";
+    case 8: return "int la[2] = { " + X + ", 1 }; return la[0];";                        // read only in the initialiser list of a local array
+    case 9: return "struct { int f; int g; } ls = { 1, " + X + " }; return ls.g;";         // ... of a local record
+    case 10: return "{ { int inner = " + X + "; return inner; } }";                         // ... of a local in a nested block
     }
     return "";
 }
@@ -57,9 +60,12 @@ static std::string model(int ctx, const std::string& decls, const std::string& E
     return s;
 }
 
-extern "C" void harness_chain()  /* vf: bounds=16_contexts(incl._inner_dimensions,element_ranges,row_typedefs,struct_fields,function_locals)_x_chain_length_0..2_(links:const_initialiser,function_body,arithmetic,element_of_a_constant_array,inline-if_between_constants)_x_8_function_read_forms_x_3_terminals(literal,const,mutable) */
+extern "C" void harness_chain()  /* vf: bounds=16_contexts(incl._inner_dimensions,element_ranges,row_typedefs,struct_fields,function_locals)_x_chain_length_0..2_(links:const_initialiser,function_body,arithmetic,element_of_a_constant_array,inline-if_between_constants)_x_11_function_read_forms_x_3_terminals(literal,const,mutable) */
 {
     int ctx = vf_pick("!context", NCTX), term = vf_pick("!terminal", NTERM), len = vf_range("!length", 0, 2);
+#ifndef VF_TIER_THOROUGH
+    vf_assume(len < 2 || ctx == C_ARRSIZE || ctx == C_SCALAR || ctx == C_VALARG || ctx == C_LARRSIZE || ctx == C_ARR_INNER || ctx == C_FUNLOCAL_ARR);   // quick tier: chains of two links in six of the contexts
+#endif
     std::string decls, E = TERM[term];
     for (int i = 0; i < len; i++) {
         int link = vf_pick("!link", NLINK);
@@ -79,7 +85,7 @@ extern "C" void harness_chain()  /* vf: bounds=16_contexts(incl._inner_dimension
     vf_reach("end");
 }
 
-extern "C" void harness_chain3()  /* vf: tier=thorough bounds=16_contexts_x_chain_length_3_x_8_function_read_forms_x_3_terminals */
+extern "C" void harness_chain3()  /* vf: tier=thorough bounds=16_contexts_x_chain_length_3_x_11_function_read_forms_x_3_terminals */
 {
     int ctx = vf_pick("!context", NCTX), term = vf_pick("!terminal", NTERM);
     std::string decls, E = TERM[term];
